@@ -849,8 +849,21 @@ func c05Snapshots(c *Ctx) {
 			}
 			if ex, okx := rv[0].(*ssa.Extract); okx {
 				if call, okc := ex.Tuple.(*ssa.Call); okc && FuncIs(call.Call.StaticCallee(), "encoding/json", "Marshal") {
-					if _, isMake := Deref(Unwrap(call.Call.Args[0])).(*ssa.MakeMap); isMake {
+					arg := Deref(Unwrap(call.Call.Args[0]))
+					if _, isMake := arg.(*ssa.MakeMap); isMake {
 						ok = true
+					}
+					// a snapshot helper (ToMap(e)): an in-repo function given this event, every return of which is a map made in that call
+					if hc, isCall := arg.(*ssa.Call); isCall {
+						if hf := hc.Call.StaticCallee(); hf != nil && InRepo(hf) && hf.Blocks != nil && len(hc.Call.Args) >= 1 && Unwrap(hc.Call.Args[0]) == ssa.Value(mj.Params[0]) {
+							fresh := len(Returns(hf)) > 0
+							for _, r2 := range Returns(hf) {
+								if _, isMake := Deref(Unwrap(RetVals(r2)[0])).(*ssa.MakeMap); !isMake {
+									fresh = false
+								}
+							}
+							ok = fresh
+						}
 					}
 				}
 			}
